@@ -122,6 +122,18 @@ class Harness(object):
         for pos in range(4):
             for b in BEHAVIOURS:
                 self.eps[(pos, b)] = mk(pos, b)
+        # prepared (module-level style) non-breaking errors that several routes decline with
+        shared = {'nbshared': errors.NotFound('shared', is_breaking=False, headers={'X-Marker': 'nbshared'}),
+                  'nbshared2': errors.Forbidden('shared2', is_breaking=False, headers={'X-Marker': 'nbshared2'})}
+
+        def mk_shared(pos, name):
+            def ep():
+                log.append(pos)
+                raise shared[name]
+            return ep
+        for pos in range(4):
+            for name in shared:
+                self.eps[(pos, name)] = mk_shared(pos, name)
 
         def render(context):
             return Response('RENDERED-BY-MISTAKE', status=200)
@@ -224,7 +236,7 @@ def compare(exp, res, log):
         return ('status', 'status %r, expected %r' % (res.status, exp['status']))
     if k == 'route':
         beh_marker = res.header('X-Marker')
-        if exp['status'] != 500 and beh_marker != str(exp['index']):
+        if exp['status'] != 500 and beh_marker != str(exp.get('marker', exp['index'])):
             return ('marker', 'response carries marker %r, expected route %r' % (beh_marker, exp['index']))
     if k == '405':
         allow = res.header('Allow')
@@ -286,7 +298,10 @@ X_ROUTES = [('/<n:int>', None, 'answer'), ('/<n:int>', ['GET'], 'answer'), ('/<n
             ('/t/<name>/', None, 'answer'),
             # bindings named like the options of clastic's HTTP error constructors, on endpoints that fail
             ('/st/<code:int>', None, 'boom'), ('/ib/<is_breaking:int>', None, 'boom'), ('/dt/<detail>', None, 'boom'),
-            ('/ib/<is_breaking?int>/x', None, 'nb404r')]
+            ('/ib/<is_breaking?int>/x', None, 'nb404r'),
+            # routes that decline with a prepared error object (the same object every time)
+            ('/<x>', None, 'nbshared'), ('/<x>', ['POST'], 'nbshared'), ('/<x>', None, 'nbshared2')]
+X_SHARED = [3, 5, 11, 12, 13]      # indexes into X_ROUTES: the sub-catalogue for tables of three and four routes
 X_PATHS = ['/5', '/' + '9' * 5000, '/abc', '/0', '/t/two words/', u'/t/caf\xe9/', '/t/me@example.org',
            '/st/200', '/ib/0', '/dt/text', '/ib/x', '/ib/1/x']
 X_METHODS = ['GET', 'get', 'Post', 'POST', 'HEAD', 'head', 'PUT']
@@ -300,8 +315,13 @@ def x_tables():
             # asks for the profile (?_prof=1) - the report replaces the body, never the routing; 'dev-server' /
             # 'dev-server-absolute': the request line travels through the development server's own parsing, in
             # origin form and in absolute form (GET http://host/path)
-            for raw_request in (False, True, 'profile', 'dev-server', 'dev-server-absolute'):
+            for raw_request in (False, True, 'profile', 'dev-server', 'dev-server-absolute', 'meta-viewed'):
+                if raw_request == 'meta-viewed' and n == 2 and (combo[0] + combo[1]) % 3:
+                    continue
                 out.append((combo, raw_request))
+    for n in (3, 4):
+        for combo in itertools.product(X_SHARED, repeat=n):
+            out.append((combo, False))
     return out
 
 
@@ -321,11 +341,21 @@ def check_x(acc, h, combo, raw_request):
     if raw_request == 'profile':
         from clastic.middleware import SimpleProfileMiddleware
         kw['middlewares'] = [SimpleProfileMiddleware()]
-    app = cls([Route(d['pattern'], h.eps[(i, d['behaviour'])], h.render if i % 2 else None, methods=d['methods'])
-               for i, d in enumerate(desc)], **kw)
+    routes = [Route(d['pattern'], h.eps[(i, d['behaviour'])], h.render if i % 2 else None, methods=d['methods'])
+              for i, d in enumerate(desc)]
+    if raw_request == 'meta-viewed':
+        # the application carries its meta application and somebody has looked at both of its pages
+        from clastic import MetaApplication
+        routes.append(('/_meta_zq', MetaApplication()))
+    app = cls(routes, **kw)
+    if raw_request == 'meta-viewed':
+        for mp in ('/_meta_zq/', '/_meta_zq/json/'):
+            wsgi.call(app, mp, 'GET')
     for path in X_PATHS:
         for method in X_METHODS:
             exp = D.dispatch(desc, M.REDIRECT, path, method)
+            if exp.get('kind') == 'route' and 'index' in exp and desc[exp['index']]['behaviour'].startswith('nbshared'):
+                exp = dict(exp, marker=desc[exp['index']]['behaviour'])
             del h.log[:]
             if raw_request == 'profile':
                 res = wsgi.call(app, path, method, query='_prof=1')
